@@ -414,7 +414,38 @@ class Ctx:
         for n in r["names"][:4]:
             self.sample({"obligation": n})
         self.log("proof obligations: %d/%d discharged" % (r["discharged"], r["obligations"]))
+        if not self.quick and not r["failed"]:
+            self.coqchk()
         return r
+
+    def coqchk(self, timeout=3000):
+        """thorough tier: re-check the compiled properties file and everything it depends on with the independent
+        checker; its context summary (axioms, type-in-type, unsafe fixpoints, assumed positivity) goes into the evidence"""
+        with CoqLock():
+            rc, out = sh(["coqchk", "-o", "-silent", "-Q", ".", "ScV", "ScV.Props.Properties_%s" % self.pid], cwd=COQ, timeout=timeout)
+        summ = out[out.find("CONTEXT SUMMARY"):] if "CONTEXT SUMMARY" in out else out[-1500:]
+        items = {}
+        for m in re.finditer(r"\* ([^:\n]+):\s*(.*?)(?=\n\* |\Z)", summ, re.S):
+            items[m.group(1).strip()] = " ".join(m.group(2).split())
+        self.notes["coqchk"] = dict(exit=rc, summary=items)
+        self.cov["checker_cmd"] += "; coqchk -o -silent -Q . ScV ScV.Props.Properties_%s" % self.pid
+        bad = []
+        if rc != 0:
+            bad.append("coqchk exit %s: %s" % (rc, out[-600:]))
+        for k in ("Constants/Inductives relying on type-in-type", "Constants/Inductives relying on unsafe (co)fixpoints",
+                  "Inductives whose positivity is assumed"):
+            if items.get(k, "<none>") != "<none>":
+                bad.append("%s: %s" % (k, items[k][:300]))
+        ax = items.get("Axioms", "<none>")
+        if ax != "<none>":
+            names = re.findall(r"([A-Za-z0-9_'.]+)\s*(?=\s|$)", ax)
+            for a in names:
+                short = a.split(".")[-1]
+                if a not in ALLOWED_AXIOMS and short not in ALLOWED_AXIOMS and not re.search(r"(PrimInt63|PrimFloat|Uint63|Float|Sint63|PrimArray|PArray|Int63)", a):
+                    bad.append("coqchk reports axiom " + a)
+        for b in bad:
+            self.broken.append(("coqchk", b))
+        self.log("coqchk: exit %s, axioms: %s" % (rc, ax[:200]))
 
     def model(self, name):
         """Path of an extracted-model driver built by `make ocaml` (rebuilt if stale)."""
